@@ -60,11 +60,16 @@ def write(pid, spec, results, tier, seed, wall, nviol, other, known_hits, undeci
                    'canaries': r.get('canaries', {})} for r in results],
         'exhaustive': False,
     }
+    if spec.get('level', 'proof') != 'proof':
+        # bounded model checking: one evaluation per harness; non-trivial = generated at least one CBMC check and passed
+        cov['evaluations'] = n
+        cov['distinct_nontrivial'] = sum(1 for o in obligations if o['ok'] and (o.get('checks') or 0) > 0)
+        cov['rule'] = 'one evaluation per Kani harness (symbolic over the stated bounded domain); distinct harnesses differ in orientation / depth / bit width; non-trivial = CBMC generated checks and all were discharged'
     ev = {
         'property_id': pid,
         'tier': tier if tier in ('quick', 'thorough') else 'quick',
         'seed': seed,
-        'level': 'proof',
+        'level': spec.get('level', 'proof'),
         'coverage': cov,
         'assumptions': spec.get('assumptions', []) + sorted(set(trusted)),
         'wall_s': round(wall, 2),
